@@ -78,72 +78,64 @@ def get_relation_formula(relation: Relation) -> str:
     raise ValueError(f"Unknown relation type: {relation}")
 
 
+NOT = PLWriter.LogicConnective.NOT.value
+OR = PLWriter.LogicConnective.OR.value
+AND = PLWriter.LogicConnective.AND.value
+IMPLIES = PLWriter.LogicConnective.IMPLIES.value
+EQUIVALENCE = PLWriter.LogicConnective.EQUIVALENCE.value
+
+
 def get_mandatory_formula(relation: Relation) -> str:
     parent = relation.parent.name
     child = relation.children[0].name
-    return f'{parent} {PLWriter.LogicConnective.EQUIVALENCE} {child}'
+    return f'{parent} {EQUIVALENCE} {child}'
 
 
 def get_optional_formula(relation: Relation) -> str:
     parent = relation.parent.name
     child = relation.children[0].name
-    return f'{child} {PLWriter.LogicConnective.IMPLIES} {parent}'
+    return f'{child} {IMPLIES} {parent}'
 
 
 def get_or_formula(relation: Relation) -> str:
     parent = relation.parent.name
-    children = f" {PLWriter.LogicConnective.OR} ".join(child.name for child in relation.children)
-    return f'{parent} {PLWriter.LogicConnective.EQUIVALENCE} ({children})'
+    children = f" {OR} ".join(child.name for child in relation.children)
+    return f'{parent} {EQUIVALENCE} ({children})'
+
+
+def _only_this_child(child: str, children: list[str], parent: str) -> str:
+    """'the siblings are unselected and the parent is selected'"""
+    negatives = [f"{NOT} {ch}" for ch in children if ch != child]
+    return f" {AND} ".join(negatives + [parent])
 
 
 def get_alternative_formula(relation: Relation) -> str:
-    formula = []
     parent = relation.parent.name
     children = [child.name for child in relation.children]
-    for child in children:
-        children_negatives = [ch for ch in children if ch != child]
-        children_neg_str = [f"{PLWriter.LogicConnective.NOT}" + ch for ch in children_negatives]
-        formula.append(f'{child} {PLWriter.LogicConnective.EQUIVALENCE} '
-                       f'({f" {PLWriter.LogicConnective.AND} ".join(children_neg_str)} '
-                       f'{PLWriter.LogicConnective.AND} {parent})')
-    return f" {PLWriter.LogicConnective.AND} ".join(f'({f})' for f in formula)
+    formula = [f'{child} {EQUIVALENCE} ({_only_this_child(child, children, parent)})' for child in children]
+    return f" {AND} ".join(f'({f})' for f in formula)
 
 
 def get_mutex_formula(relation: Relation) -> str:
-    formula = []
+    # at most one child, and a child only together with the parent
     parent = relation.parent.name
     children = [child.name for child in relation.children]
-    for child in children:
-        children_negatives = [cn for cn in children if cn != child]
-        children_neg_str = [f"{PLWriter.LogicConnective.NOT}" + cn for cn in children_negatives]
-        formula.append(f'{child} {PLWriter.LogicConnective.EQUIVALENCE} '
-                       f'({f" {PLWriter.LogicConnective.AND} ".join(children_neg_str)} '
-                       f'{PLWriter.LogicConnective.AND} {parent})')
-    formula_str = f" {PLWriter.LogicConnective.AND} ".join(f'({f})' for f in formula)
-    or_children = f" {PLWriter.LogicConnective.OR} ".join(child for child in children)
-    return f'({parent} {PLWriter.LogicConnective.EQUIVALENCE} ' \
-           f'{PLWriter.LogicConnective.NOT}({or_children})) ' \
-           f'{PLWriter.LogicConnective.OR} ({formula_str})'
+    formula = [f'{child} {IMPLIES} ({_only_this_child(child, children, parent)})' for child in children]
+    return f" {AND} ".join(f'({f})' for f in formula)
 
 
 def get_cardinality_formula(relation: Relation) -> str:
+    # a child only together with the parent; with the parent, between card_min and card_max children
     parent = relation.parent.name
     children = [child.name for child in relation.children]
-    or_ctc = []
+    selections = []
     for k in range(relation.card_min, relation.card_max + 1):
-        combi_k = list(itertools.combinations(children, k))
-        for positives in combi_k:
-            negatives = [ch for ch in children if ch not in positives]
-            negatives_str = [f"{PLWriter.LogicConnective.NOT}" + f for f in negatives]
-            positives_and_ctc = f'{f" {PLWriter.LogicConnective.AND} ".join(positives)}'
-            negatives_and_ctc = f'{f" {PLWriter.LogicConnective.AND} ".join(negatives_str)}'
-            if positives_and_ctc and negatives_and_ctc:
-                and_ctc = f'{positives_and_ctc} {PLWriter.LogicConnective.AND} {negatives_and_ctc}'
-            else:
-                and_ctc = f'{positives_and_ctc}{negatives_and_ctc}'
-            or_ctc.append(and_ctc)
-    formula_or_ctc = f'{f" {PLWriter.LogicConnective.OR} ".join(or_ctc)}'
-    return f'{parent} {PLWriter.LogicConnective.EQUIVALENCE} {formula_or_ctc}'
+        for positives in itertools.combinations(children, k):
+            literals = [ch if ch in positives else f"{NOT} {ch}" for ch in children]
+            selections.append('(' + f" {AND} ".join(literals) + ')')
+    no_child = '(' + f" {AND} ".join(f"{NOT} {ch}" for ch in children) + ')'
+    allowed = f" {OR} ".join(selections) if selections else f'{NOT} {parent}'
+    return f'({parent} {IMPLIES} ({allowed})) {AND} (({NOT} {parent}) {IMPLIES} {no_child})'
 
 
 def get_constraint_formula(ctc: Constraint) -> str:
